@@ -965,3 +965,150 @@ Proof.
   - destruct (E4 k Hk) as [[A B]|A]; [split; apply mem_In; assumption|].
     exfalso. unfold s in Hk. rewrite (no_ed_file_no_ed c A l (sealed_init c) eq_refl) in Hk. discriminate.
 Qed.
+
+(* ------------------------------------------------------------------ publication is stable under other writers *)
+(* a writer keeps publication if every key of a loaded signer that is listed stays listed *)
+Definition keeps_signing (f : state -> list key) : Prop :=
+  forall s k, (signer s = Some k \/ ed s = Some k) -> mem k (pubkeys s) = true -> mem k (f s) = true.
+
+Lemma completeb_parts c s : completeb c s = true ->
+  signer s = Some (main_key c) /\ mem (main_key c) (ca_ders s) = true /\ role_ca s = Some (main_key c) /\
+  mem (main_key c) (pubkeys s) = true /\
+  match ed_file c with Some (_, e, _) => ed s = Some e /\ mem e (ca_ders s) = true /\ mem e (pubkeys s) = true | None => True end.
+Proof.
+  unfold completeb. intros H.
+  repeat (apply andb_true_iff in H; destruct H as [H ?]).
+  apply okey_eqb_eq in H. split; [exact H|]. split; [assumption|].
+  split; [apply okey_eqb_eq; assumption|]. split; [assumption|].
+  destruct (ed_file c) as [[[pe e] eok]|]; [|exact I].
+  rename H0 into X. repeat (apply andb_true_iff in X; destruct X as [X ?]).
+  apply okey_eqb_eq in X. auto.
+Qed.
+
+Lemma completeb_write c s f : keeps_signing f -> completeb c s = true -> completeb c (set_pubkeys s (f s)) = true.
+Proof.
+  intros Hf H. destruct (completeb_parts c s H) as (A & B & C & D & E).
+  apply completeb_intro; simpl; auto.
+  destruct (ed_file c) as [[[pe e] eok]|]; [|exact I].
+  destruct E as (E1 & E2 & E3). auto.
+Qed.
+
+Lemma Q_write c s f : keeps_signing f -> Q c s -> Q c (set_pubkeys s (f s)).
+Proof. intros Hf [A B]. split; simpl; [intro H; apply completeb_write; auto|exact B]. Qed.
+
+Lemma Inv_write c w f : keeps_signing f -> Inv c w -> Inv c (step2 c w (EWrite f)).
+Proof.
+  intros Hf HI. unfold step2. destruct (lock w) as [h|] eqn:El; [exact HI|].
+  constructor; simpl.
+  - intros j t k Hj Hk. destruct (inv_G _ _ HI j t k Hj Hk) as [A B]. split; [exact A|apply completeb_write; auto].
+  - apply (inv_obs _ _ HI).
+  - apply (inv_tr _ _ HI).
+  - intros _. apply Q_write; [exact Hf|]. apply (inv_free _ _ HI El).
+  - intros j t Hj. pose proof (inv_thr _ _ HI j t Hj) as H. rewrite El in H. unfold onat_eqb in *. exact H.
+  - intros h Hh. discriminate.
+Qed.
+
+Lemma run2_Inv c evs : (forall f, In (EWrite f) evs -> keeps_signing f) -> forall w, Inv c w -> Inv c (run2 c w evs).
+Proof.
+  induction evs as [|e l IH]; intros Hf w H; simpl; [exact H|].
+  apply IH; [intros f Hin; apply Hf; right; exact Hin|].
+  destruct e as [i|f]; [apply step_Inv, H|apply Inv_write; [apply Hf; left; reflexivity|exact H]].
+Qed.
+
+(* without an Ed25519 file the Ed25519 signer never appears, whatever runs *)
+Lemma exec_ed_none c a s t : ed_file c = None -> ed s = None -> ed (fst (exec c a s t)) = None.
+Proof.
+  intros A B. destruct a; simpl; try exact B; try rewrite A; try exact B.
+  - destruct (is_some (signer s)); exact B.
+  - destruct (decrypt_ok c p); exact B.
+  - destruct (main_ok c); exact B.
+  - destruct (role_ok c); exact B.
+  - destruct (saw t); exact B.
+Qed.
+
+Lemma step_ed_none c w i : ed_file c = None -> ed (st w) = None -> ed (st (step c w i)) = None.
+Proof.
+  intros A B. unfold step. destruct (nth_error (threads w) i) as [t|]; [|exact B].
+  destruct (prog t) as [|a r]; [exact B|].
+  destruct a; try (destruct (lock w); exact B); try exact B;
+    (destruct (aborted t); [exact B|]);
+    match goal with |- context[exec c ?a (st w) t] =>
+      pose proof (exec_ed_none c a (st w) t A B) as H; destruct (exec c a (st w) t) as [s' t']; exact H end.
+Qed.
+
+Lemma run2_ed_none c evs : ed_file c = None -> forall w, ed (st w) = None -> ed (st (run2 c w evs)) = None.
+Proof.
+  intros A. induction evs as [|e l IH]; intros w B; simpl; [exact B|]. apply IH.
+  destruct e as [i|f]; [apply step_ed_none; assumption|]. simpl. destruct (lock w); exact B.
+Qed.
+
+(* in a state with complete material, whatever a handler signs is signed with a published key *)
+Lemma complete_published c s (p : list hstep) kd k ck :
+  completeb c s = true -> (ed_file c = None -> ed s = None) ->
+  In (kd, k, ck) (snd (run_handler s p [])) -> In k (ca_ders s) /\ In k (pubkeys s).
+Proof.
+  intros Hc Hed H. apply run_handler_keys in H. destruct H as [[]|[Hn Hk]].
+  destruct (completeb_elim c s Hc) as [E1 [E2 [E3 E4]]].
+  destruct Hk as [Hk|Hk].
+  - rewrite E1 in Hk. inversion Hk; subst. split; apply mem_In; assumption.
+  - destruct (E4 k Hk) as [[A B]|A]; [split; apply mem_In; assumption|].
+    rewrite (Hed A) in Hk. discriminate.
+Qed.
+
+(* Publication is stable: from a sealed state, ANY pool of injections and requests, ANY number of other
+   writers of the published-key list that keep the signing keys listed, ANY interleaving: whenever the
+   mutex is free and the server is unsealed — and at every moment for every request that has seen the
+   signer — the key material is complete and whatever any handler signs is signed with a key in the
+   published lists. *)
+Theorem published_stable c s jobs evs :
+  signer s = None -> ed s = None -> ready_sent s = 0%nat ->
+  (forall f, In (EWrite f) evs -> keeps_signing f) ->
+  let w := run2 c (init_world s jobs) evs in
+  (lock w = None -> signer (st w) <> None ->
+     completeb c (st w) = true /\
+     forall p kd k ck, In (kd, k, ck) (snd (run_handler (st w) p [])) -> In k (ca_ders (st w)) /\ In k (pubkeys (st w))) /\
+  (forall j t k0, nth_error (threads w) j = Some t -> saw t = Some k0 ->
+     signer (st w) = Some k0 /\ completeb c (st w) = true /\
+     forall p kd k ck, In (kd, k, ck) (snd (run_handler (st w) p [])) -> In k (ca_ders (st w)) /\ In k (pubkeys (st w))).
+Proof.
+  intros Hs He Hr Hf w.
+  assert (HI : Inv c w) by (apply run2_Inv; [exact Hf|apply init_Inv; assumption]).
+  assert (Hed : ed_file c = None -> ed (st w) = None) by (intro A; apply run2_ed_none; assumption).
+  split.
+  - intros El Hn. destruct (inv_free _ _ HI El) as [A _].
+    assert (Hc : completeb c (st w) = true) by (apply A; destruct (signer (st w)); [reflexivity|congruence]).
+    split; [exact Hc|]. intros p kd k ck Hin. eapply complete_published; eauto.
+  - intros j t k0 Hj Hk. destruct (inv_G _ _ HI j t k0 Hj Hk) as [A B].
+    split; [exact A|]. split; [exact B|]. intros p kd k ck Hin. eapply complete_published; eauto.
+Qed.
+
+(* the two writers of Model/Seal.v keep the signing keys *)
+Lemma mem_fold_add file : forall l k, mem k l = true -> mem k (fold_left (fun a x => add_key x a) file l) = true.
+Proof. induction file as [|x r IH]; intros l k H; simpl; [exact H|]. apply IH, mem_add_other, H. Qed.
+
+Lemma w_append_keeps k : keeps_signing (w_append k).
+Proof. intros s k0 _ H. unfold w_append. apply mem_add_other, H. Qed.
+
+Lemma w_reload_keeps file : keeps_signing (w_reload file).
+Proof.
+  intros s k Hk _. unfold w_reload. apply mem_fold_add. unfold local_keys, mem. rewrite existsb_app.
+  destruct Hk as [Hk|Hk]; rewrite Hk; simpl; rewrite N.eqb_refl; simpl; [apply orb_true_r|reflexivity].
+Qed.
+
+(* the reloader that snapshots in one critical section and replaces in another loses the signer's key:
+   snapshot while sealed, the injection completes, the replacement installs the stale list *)
+Definition stale_cfg : cfg :=
+  {| right_pass := [112]; main_key := 1; main_res := FGood; role_ok := true; ed_file := Some ([112], 2, FGood); extra_pubkeys := [9] |}.
+Definition stale_evs : list ev3 :=
+  [ESnap] ++ repeat (E3 (EThread 0%nat)) 14 ++ [EReplace [9]].
+
+Lemma stale_replace_refuted :
+  let x := run3 stale_cfg {| w3 := init_world (sealed_init stale_cfg) [JInject [112]]; snap := None |} stale_evs in
+  let s := st (w3 x) in
+  lock (w3 x) = None /\ signer s = Some 1 /\ ready_sent s = 1%nat /\ readyz s = 200 /\
+  pubkeys s = [9] /\ mem 1 (pubkeys s) = false /\ mem 2 (pubkeys s) = false /\
+  run_handler s [HGuard; HSign 3 true false; HSign 2 false true] [] = (Done, [(3, 1, true); (2, 2, false)]) /\
+  (* the same schedule with the reload done in ONE critical section keeps both keys published *)
+  pubkeys (st (run2 stale_cfg (init_world (sealed_init stale_cfg) [JInject [112]])
+                     (repeat (EThread 0%nat) 14 ++ [EWrite (w_reload [9])]))) = [2; 1; 9].
+Proof. vm_compute. repeat split; reflexivity. Qed.
